@@ -19,7 +19,7 @@ COLUMN_EXPRS = [
     ["substr", "(", "name", ",", "1", ",", "3", ")"], ["year", "(", "modified", ")"],
     ["coalesce", "(", "ext", ",", "'none'", ")"], ["size", "mod", "7"], ["-", "size"],
 ]
-AGG_EXPRS = [["count", "(", "*", ")"], ["sum", "(", "size", ")"], ["avg", "(", "size", ")"],
+AGG_EXPRS = [["count(*)"], ["sum", "(", "size", ")"], ["avg", "(", "size", ")"],
              ["min", "(", "length", "(", "name", ")", ")"], ["max", "(", "size", ")"], ["stddev", "(", "size", ")"]]
 
 ATOMS = [
